@@ -11,7 +11,15 @@ class CallMixin:
     # ------------------------------------------------------------------ contract lookup
     def contract_for(self, fn_or_name):
         name = fn_or_name if isinstance(fn_or_name, str) else fn_or_name.name
-        return self.c.funcs.get(self.shortfn(name))
+        sn = self.shortfn(name)
+        tc = getattr(self, 'top_contract', None)
+        if tc is not None:
+            # contract variants (`func F @tag`): the function under verification is checked against the variant; callees named in its
+            # `uses` clause are applied with the named variant of their contract
+            if name == getattr(self, 'top_name', None) and not getattr(self, '_in_callee_lookup', False): return tc
+            u = self.top_uses.get(sn)
+            if u is not None: return u
+        return self.c.funcs.get(sn)
 
     def functype_contract(self, t, origin):
         if origin:
